@@ -435,6 +435,7 @@ class Twister:
         site = self.cn + '.exp'
         base = 'th=%s/' % tn
         forms = [('float', thf), ('np64', np.float64(thf))] + ([('int', tv)] if isint else [])
+        cache = {}
         # --- exp, radians
         for fn, arg in forms:
             cid = self.start(base + 'm=exp/rad/' + fn)
@@ -449,6 +450,7 @@ class Twister:
             m = self.pose(cid, site, p, ok, got)
             if m is not None:
                 self.one(cid, site, p, m[0], thf)
+                cache[fn] = m[0]
         # --- exp, degrees
         deg = math.degrees(thf)
         dforms = [('float', deg)]
@@ -496,9 +498,12 @@ class Twister:
                 continue
             if not self.one(cid, msite, p, m[0], thf):
                 continue
-            ok2, got2 = call(S.exp, arg)
-            m2 = mats(got2, self.SE) if ok2 else None
-            if m2 and len(m2) == 1 and np.all(np.isfinite(m2[0])):
+            if fn in cache:
+                m2 = [cache[fn]]
+            else:
+                ok2, got2 = call(S.exp, arg)
+                m2 = mats(got2, self.SE) if ok2 else None
+            if m2 and len(m2) == 1 and np.asarray(m2[0]).dtype != object and np.all(np.isfinite(m2[0])):
                 d = float(np.abs(np.asarray(m[0], dtype=float) - m2[0]).max())
                 if d > TOL * rs.scale:
                     ctx.fail(cid, msite, 'mismatch', p, '(S*k).exp() and S.exp(k) differ by %.3g' % d)
@@ -560,17 +565,19 @@ class Twister:
         site = self.cn + '.exp'
         vals = [float(v) for _, v in self.th]
         names = [n for n, _ in self.th]
-        gen = [(n, float(v)) for n, v in self.th if n.startswith('g')][:1]
+        gen = [(n, float(v)) for n, v in self.th if n.startswith('g')]
+        variants = [('list', None), ('tuple', None), ('ndarray', None)]
+        variants += [(f, g) for g in gen for f in ('list1', 'ndarray1')]     # one-element vectors
         for unit in ('rad', 'deg'):
-            for form in ('list', 'tuple', 'ndarray', 'list1', 'ndarray1'):
-                cid = self.start('vec/%s/%s' % (unit, form))
+            for form, g1 in variants:
+                cid = self.start('vec/%s/%s%s' % (unit, form, '' if g1 is None else '[%s]' % g1[0]))
                 if not cid:
                     continue
                 S = self.twist()
                 if S is None:
                     return
-                if form.endswith('1'):
-                    nm, vv = [gen[0][0]], [gen[0][1]]
+                if g1 is not None:
+                    nm, vv = [g1[0]], [g1[1]]
                 else:
                     nm, vv = names, vals
                 send = [math.degrees(v) for v in vv] if unit == 'deg' else list(vv)
@@ -623,6 +630,14 @@ class Twister:
                 ctx.fail(cid, site, 'mismatch', p, 'isprismatic is %r for a %s twist' % (got, kind))
             else:
                 ctx.cell(site, kind, bool(got))
+        # exp() without argument: theta = 1
+        cid, S = acc('exp()')
+        if cid:
+            p = self.params(method='exp', theta=1.0, thname='default', unit='rad', form='none')
+            ok, got = call(S.exp)
+            m = self.pose(cid, cn + '.exp', p, ok, got)
+            if m is not None:
+                self.one(cid, cn + '.exp', p, m[0], 1.0)
         # observations the statement leaves open: recorded, never judged
         cid, S = acc('notes')
         if cid:
@@ -663,8 +678,8 @@ class Twister:
                              'se matrix differs from [[skew(a^), -a^ x q],[0 0]] by %.3g: %r' % (d, M.tolist()))
                 else:
                     ctx.cell(site, kind, 'structure ok')
-                    for tn in ('g', '2pi-1e-6'):
-                        tv = [float(v) for n_, v in self.th if n_.startswith(tn)][0]
+                    for tn in ('i-3', '2pi-1e-6'):           # letters present in both tiers for every seed
+                        tv = [float(v) for n_, v in self.th if n_ == tn][0]
                         T = ref.mp_expm(M * tv)
                         v = judge(rs, T, tv)
                         if v is not None:
@@ -801,7 +816,7 @@ class Twister:
         if not ok or type(M2) is not self.TW or len(M2) != 2:
             self.multi_report(cid, self.cn, 'ctor', ok, M2)
             return
-        g = [float(v) for n, v in self.th if n.startswith('g')][:2]
+        g = [1.0, -3.0]
         ok, got = call(M2.exp, g)
         m = mats(got, self.SE) if ok else None
         if m is None or len(m) != 2:
@@ -839,16 +854,32 @@ class Twister:
 
 # --------------------------------------------------------------------------- shards
 
+def twists3(tier, seed, block):
+    """[(axis name, length name, a, point name, q)] of one block, in a fixed order"""
+    out = []
+    if block == 'A':
+        for an, ln, a in dirs3(tier, seed):
+            ahat = a / math.sqrt(float(a @ a))
+            for qn, q in points3_short(tier, seed, ahat):
+                out.append((an, ln, a, qn, q))
+    else:
+        full = points3_full()
+        for an, av in alph.axes(tier, seed):
+            sn = set(nm for nm, _ in points3_short(tier, seed, av))      # block A already has these at length 1
+            for qn, q in full:
+                if qn not in sn:
+                    out.append((an, '1', 1.0 * av, qn, q))
+    return out
+
+
 def shards(tier, seed):
     out = []
-    nd = len(dirs3(tier, seed))
-    na = 24 if tier == 'quick' else 40
+    na = 24 if tier == 'quick' else 28
     for k in range(na):
         out.append(('rev3A', k, na))
     if tier != 'quick':
-        nax = len(alph.axes(tier, seed))
-        for k in range(nax):
-            out.append(('rev3B', k, nax))
+        for k in range(34):
+            out.append(('rev3B', k, 34))
     out.append(('pris3', 0, 2))
     out.append(('pris3', 1, 2))
     out.append(('rev2', 0, 2))
@@ -868,27 +899,15 @@ def _run_shard(ctx, shard):
     kind, k, n = shard
     th = thetas(tier, seed)
     if kind in ('rev3A', 'rev3B'):
-        if kind == 'rev3A':
-            D = dirs3(tier, seed)[k::n]
-        else:
-            D = [(an, '1', av) for an, av in alph.axes(tier, seed)][k::n]
-        for an, ln, a in D:
-            ahat = a / math.sqrt(float(a @ a))
-            short = points3_short(tier, seed, ahat)
-            if kind == 'rev3A':
-                pts = short
-            else:
-                sn = set(nm for nm, _ in short)
-                pts = [(nm, q) for nm, q in points3_full() if nm not in sn]     # block A already has these at length 1
-            for qn, q in pts:
-                prefix = 'C18/d3/rev/ax=%s/len=%s/q=%s/' % (an, ln, qn)
-                if ctx.only is not None and not ctx.only.startswith(prefix):
-                    continue
-                rs = RefScrew(3, 'revolute', a, q)
-                bp = {'dim': 3, 'kind': 'revolute', 'axis': an, 'axislen': rs.alen, 'q': qn, 'qmag': rs.qmag}
-                key0 = (3, 'rev', tuple(a.tolist()), tuple(q.tolist()))
-                ctor = (lambda a=a, q=q: sm.Twist3.Revolute(a.copy(), q.copy()))
-                Twister(ctx, 3, 'revolute', prefix, bp, key0, ctor, 'Twist3.Revolute', rs, th).run()
+        for an, ln, a, qn, q in twists3(tier, seed, kind[-1])[k::n]:
+            prefix = 'C18/d3/rev/ax=%s/len=%s/q=%s/' % (an, ln, qn)
+            if ctx.only is not None and not ctx.only.startswith(prefix):
+                continue
+            rs = RefScrew(3, 'revolute', a, q)
+            bp = {'dim': 3, 'kind': 'revolute', 'axis': an, 'axislen': rs.alen, 'q': qn, 'qmag': rs.qmag}
+            key0 = (3, 'rev', tuple(a.tolist()), tuple(q.tolist()))
+            ctor = (lambda a=a, q=q: sm.Twist3.Revolute(a.copy(), q.copy()))
+            Twister(ctx, 3, 'revolute', prefix, bp, key0, ctor, 'Twist3.Revolute', rs, th).run()
     elif kind == 'pris3':
         for an, ln, a in dirs3(tier, seed)[k::n]:
             prefix = 'C18/d3/pris/ax=%s/len=%s/' % (an, ln)
